@@ -11,6 +11,26 @@ def first_word(r):
     return r.split(' ', 1)[0] if r else ''
 
 
+def small_scope(run, proj, why):
+    """bounded-exhaustive correspondence for the parser: every token sequence up to length 2 (quick) / 3 (thorough) over one
+    spelling of every token kind, with and without a final newline, plus a random sample of longer ones; the model's and
+    the implementation's answers are compared under the property's own projection"""
+    if run.tier == 'quick':
+        ts = texts.small_scope_texts(run.rng, 2, 25000, (3, 5))
+    else:
+        ts = texts.small_scope_texts(run.rng, 3, 400000, (4, 7))
+    reqs = ['parse ' + hx(t) for t in ts]
+    m, im = run.tie(reqs, proj=proj, functional=True, desc=lambda i: {'text': ts[i], 'section': 'small-scope'})
+    for t, r in zip(ts, im):
+        if r is None:
+            continue
+        run.case(('ss', t), True, kind='small-scope', outcome=first_word(r))
+        if first_word(r) not in ('ok', 'err'):
+            run.fail({'text': t, 'answer': r[:200]}, why + ': parse does not return (%s)' % first_word(r))
+    run.extra['small_scope'] = {'vocabulary': len(texts.small_scope_vocabulary()), 'sequences': len(ts),
+                                'exhaustive_up_to_length': 2 if run.tier == 'quick' else 3}
+
+
 # ----------------------------------------------------------------------------- C01
 
 def c01(run):
@@ -63,6 +83,7 @@ def c01(run):
                 f = r.split(' ')
                 if len(f) < 4 or f[3] == 'crash' or len(f[3]) <= 1:
                     run.fail({'text': t, 'profile': prof, 'answer': r}, 'parse error message cannot be rendered')
+    small_scope(run, lambda r: 'returns' if first_word(r) in ('ok', 'err') else 'crash:' + r[:40], 'totality')
 
 
 # ----------------------------------------------------------------------------- C12
@@ -171,11 +192,24 @@ def c12_text_(rng):
     return ''.join(parts)
 
 
+LEX_ALPHABET = ['a', 's', 'r', 'e', 'n', 'X', '0', '5', '.', ',', "'", '"', '(', ')', ' ', '\n', '\r', '\t', '-', '+', '<', '>',
+                '=', '&', '*', '/', '_', '?', 'é', 'İ', '\u00a0', '\ufeff', 'ß']
+
+
 def c12(run):
     rng = run.rng
     n = run.n(3000, 150000)
     cases = [c12_text(rng) for _ in range(n)]
-    run.rule = ('texts from the C01 generator biased to multi-line strings/comments followed by suffix tokens, '
+    # bounded-exhaustive: EVERY string up to length 3 (quick) / 4 (thorough) over an alphabet with one character of every
+    # class the lexer distinguishes
+    import itertools
+    for L in range(1, (3 if run.tier == 'quick' else 4) + 1):
+        cases += [''.join(cs) for cs in itertools.product(LEX_ALPHABET, repeat=L)]
+    run.extra['small_scope'] = {'alphabet': len(LEX_ALPHABET), 'exhaustive_up_to_length': 3 if run.tier == 'quick' else 4}
+    run.rule = ('every string up to length 3 (quick) / 4 (thorough) over a %d-character alphabet (letters of the suffixes and of a '
+                'keyword, digits, quote, parentheses, apostrophe, period, comma, hyphen, symbols, blanks incl. CR/TAB/NBSP, line '
+                'feed, multi-byte and case-length-changing letters, BOM); ' % len(LEX_ALPHABET) +
+                'texts from the C01 generator biased to multi-line strings/comments followed by suffix tokens, '
                 'multi-byte characters, CR/LF, tokens at end of input; non-trivial = contains a multi-line token, a suffix '
                 'token or a multi-byte character; distinct by text')
     reqs = ['lex ' + hx(t) for t in cases]
@@ -234,6 +268,8 @@ def c02(run):
         if got != exp:
             run.fail({'text': t, 'expected': exp, 'got': r}, 'a spelling of a tree parses to a different tree (or is rejected)')
     run.extra['renderings_per_tree'] = k
+    # the function text -> tree itself, on every short token sequence (accepted: the tree; rejected: that it is rejected)
+    small_scope(run, lambda r: 'err' if r.startswith('err') else rock.erase_positions(r), 'spelling -> tree')
 
 
 # ----------------------------------------------------------------------------- C13
@@ -348,6 +384,12 @@ def c13(run):
             if int(f[2]) != exp_line:
                 run.fail({'text': text, 'fault': line, 'line': exp_line, 'answer': r[:200]},
                          'the %s fault %r is on line %d but the error names line %s' % (cat, line, exp_line, f[2]))
+    # every short token sequence: which ones are rejected, with which code and on which line
+
+    def proj13(r):
+        f = r.split(' ')
+        return ' '.join(f[:3]) if f[0] == 'err' else f[0]
+    small_scope(run, proj13, 'rejection and its line')
 
 
 # ----------------------------------------------------------------------------- C11
